@@ -48,12 +48,19 @@ type afItem struct {
 	Val string
 }
 
+// traces carry long strings as strKey (the renderer works on the real ones)
 func (it afItem) MarshalJSON() ([]byte, error) {
 	switch it.K {
 	case "E":
-		return json.Marshal(map[string]interface{}{"k": "E", "e": it.E})
+		e := *it.E
+		e.URI, e.Tag, e.Host = strKey(e.URI), strKey(e.Tag), strKey(e.Host)
+		e.Headers = make([][]string, len(it.E.Headers))
+		for i, h := range it.E.Headers {
+			e.Headers[i] = []string{h[0], strKey(h[1])}
+		}
+		return json.Marshal(map[string]interface{}{"k": "E", "e": &e})
 	case "H":
-		return json.Marshal(map[string]interface{}{"k": "H", "key": it.Key, "val": it.Val})
+		return json.Marshal(map[string]interface{}{"k": "H", "key": it.Key, "val": strKey(it.Val)})
 	}
 	return json.Marshal(map[string]interface{}{"k": "B"})
 }
